@@ -397,6 +397,7 @@ def s_abs(a):
 
 
 # ---------------------------------------------------------------- sums
+EXTRA = []     # extra axioms registered during one path (inverse functions of scatter writes, ...)
 SCOPE = []     # index variables currently in scope (symbolic loop variables of the interpreter, bound
                # variables of spec quantifiers): sums / selections whose body mentions them are parametric
 
@@ -447,10 +448,23 @@ class Sums:
     def __init__(self):
         self.entries = []     # (canonical body over self.j and par!k, func, sort, nparams)
         self.zero_lemma_uses = 0
+        self.ext_lemma_uses = 0
+        self.level = 0
         self.j = z3.Int('sum!j')
 
     def prefix(self, g, ctx=None):
-        body = g(self.j)
+        # the summation variable is in scope while the summand is built (inner sums become parametric in it);
+        # nested sums use distinct variables, the stored body is renamed to the canonical one afterwards
+        jl = z3.Int(f'sum!j@{self.level}')
+        self.level += 1
+        SCOPE.append(jl)
+        try:
+            body = g(jl)
+        finally:
+            SCOPE.pop()
+            self.level -= 1
+        if is_z3(body):
+            body = z3.substitute(body, (jl, self.j))
         if isinstance(body, Havoc):
             raise Unsupported('sum over havoc')
         body = lift(body)
@@ -479,15 +493,20 @@ class Sums:
                 f = fn
                 break
         if f is None:
+            # extensionality (generic lemma, lemmas/sums.py): summands that agree for every index j >= 0 under the
+            # path facts have the same prefix sums.  Checked with E-matching only (fast; failure = no sharing).
             for (b, fn, srt, np_) in self.entries:
                 if srt == cbody.sort() and np_ == len(params):
                     s = z3.Solver()
-                    s.set('timeout', 500)
+                    s.set('timeout', 1500)
+                    s.set('smt.mbqi', False)
                     if ctx:
-                        s.add(*[c for c in ctx if not z3.is_quantifier(c)])
-                    s.add(b != cbody)
+                        s.add(*ctx)
+                    s.add(*EXTRA)
+                    s.add(self.j >= 0, b != cbody)
                     if s.check() == z3.unsat:
                         f = fn
+                        self.ext_lemma_uses += 1
                         break
         if f is None:
             f = z3.Function(fresh_name('psum'), *([z3.IntSort()] * (len(params) + 1)), cbody.sort())
